@@ -83,12 +83,19 @@ func main() {
 		if c.Kind == "det" || strings.Contains(c.Name, "canonicalize") || strings.Contains(c.Name, "reorder") {
 			w = 4
 		}
+		if c.Kind == "semval" { // errors that carry bytes of the input: retained and re-read by other goroutines
+			w = 2
+		}
 		for k := 0; k < w; k++ {
 			draw = append(draw, i)
 		}
 	}
 	deadline := time.Now().Add(time.Duration(*seconds * float64(time.Second)))
 	var runs, heavyRuns, keptChecks atomic.Int64
+	// results (data AND errors) retained by one goroutine are re-examined by the others
+	var sharedMu sync.Mutex
+	var shared [32]kept
+	sharedN := 0
 	var wg sync.WaitGroup
 	for g := 0; g < *gor; g++ {
 		wg.Add(1)
@@ -113,7 +120,7 @@ func main() {
 				if o.Res != base[i] {
 					report("MISMATCH", c.Name, o.Res, base[i])
 				}
-				if o.Keep != nil && rng.IntN(3) == 0 && (!c.Heavy || rng.IntN(4) == 0) {
+				if o.Keep != nil && (c.Kind == "semval" || rng.IntN(3) == 0) && (!c.Heavy || rng.IntN(4) == 0) {
 					snap := o.Keep()
 					if o.Scribble != nil {
 						o.Scribble()
@@ -123,6 +130,26 @@ func main() {
 					}
 					ring[n%len(ring)] = kept{c.Name, snap, o.Keep}
 					n++
+					if rng.IntN(2) == 0 {
+						sharedMu.Lock()
+						shared[sharedN%len(shared)] = kept{c.Name, snap, o.Keep}
+						sharedN++
+						sharedMu.Unlock()
+					}
+				}
+				if rng.IntN(3) == 0 { // something another goroutine was handed earlier
+					sharedMu.Lock()
+					var k kept
+					if sharedN > 0 {
+						k = shared[rng.IntN(min(sharedN, len(shared)))]
+					}
+					sharedMu.Unlock()
+					if k.keep != nil {
+						keptChecks.Add(1)
+						if s2 := k.keep(); s2 != k.snap {
+							report("RETAINED", k.name+" (retained by another goroutine; seen after "+c.Name+")", trunc(s2), trunc(k.snap))
+						}
+					}
 				}
 				if n > 0 && rng.IntN(2) == 0 {
 					k := ring[rng.IntN(min(n, len(ring)))]
